@@ -21,7 +21,9 @@ func (h *c06Hash) Reset()                      { h.buf = nil }
 func (h *c06Hash) Size() int                   { return 32 }
 func (h *c06Hash) BlockSize() int              { return 64 }
 
-func c06H(alg string, n int, data []byte) []byte { return vr.UF("H-"+alg, n, append([]byte{}, data...)) }
+func c06H(alg string, n int, data []byte) []byte {
+	return vr.UF("H-"+alg, n, append([]byte{}, data...))
+}
 
 var c06OtherOID = asn1.ObjectIdentifier{1, 2, 3, 4}
 
